@@ -227,11 +227,40 @@ func (c *Client[C]) Ping(ctx context.Context) error {
 		default:
 		}
 	}
-	cancel, err := c.cc.AsyncPing(receivedPong)
-	if err != nil {
-		return err
+	// AsyncPing writes the ping with the context of the connection: the write may wait - for a handshake, for the
+	// write lock, for a peer that does not read - longer than ctx lasts. It is started on a goroutine of its own and
+	// waited for together with ctx.
+	type started struct {
+		cancel func()
+		err    error
 	}
-	defer cancel()
+	startedChan := make(chan started, 1)
+	go func() {
+		cancel, err := c.cc.AsyncPing(receivedPong)
+		startedChan <- started{cancel: cancel, err: err}
+	}()
+	select {
+	case s := <-startedChan:
+		if s.err != nil {
+			return s.err
+		}
+		defer s.cancel()
+	case <-ctx.Done():
+		go func() {
+			// give the ping up when (if ever) it has been written
+			if s := <-startedChan; s.err == nil {
+				s.cancel()
+			}
+		}()
+		return ctx.Err()
+	case <-c.cc.Context().Done():
+		go func() {
+			if s := <-startedChan; s.err == nil {
+				s.cancel()
+			}
+		}()
+		return fmt.Errorf("connection was closed: %w", c.cc.Context().Err())
+	}
 	select {
 	case <-resp:
 		return nil
